@@ -200,7 +200,12 @@ def node_class(n):
         return 2
     if n.kind == "pi":
         return 10 + ["p", "q"].index(n.name) if n.name in ("p", "q") else 19
-    return 20 + NAMES.index(n.name) + 10 * NS_KEYS.index(n.ns) if n.name in NAMES else 99
+    if n.name in NAMES:
+        return 20 + NAMES.index(n.name) + 10 * NS_KEYS.index(n.ns)
+    # any other element name: e<number> (documents with many distinct names), else one class per spelling
+    if n.name[:1] == "e" and n.name[1:].isdigit():
+        return 1000 + 10 * int(n.name[1:]) + NS_KEYS.index(n.ns)
+    return 100000 + (sum((i + 1) * ord(ch) for i, ch in enumerate(n.name)) % 100000) * 10 + NS_KEYS.index(n.ns)
 
 
 def ancestors(n):
@@ -393,10 +398,16 @@ def gen_instr(r):
 
 def def_snippet(ins):
     """XSLT that prints the defining expression of XSLT 1.0 section 7.7 for the context node as a dotted decimal list
-    ('?' when the count pattern is the default one)."""
+    ('?' for the default count pattern on a node that is not an element)."""
     if ins.count is None:
-        return "<xsl:text>?</xsl:text>"
-    P = ins.count[1]
+        # the default count pattern of an element: same node type and expanded name as the current node (inside the
+        # for-each over the matching ancestors current() is that ancestor, which has the same expanded name)
+        elem = _def_snippet(ins, "self::*[local-name()=local-name(current()) and namespace-uri()=namespace-uri(current())]")
+        return '<xsl:choose><xsl:when test="self::*">%s</xsl:when><xsl:otherwise>?</xsl:otherwise></xsl:choose>' % elem
+    return _def_snippet(ins, ins.count[1])
+
+
+def _def_snippet(ins, P):
     if ins.level == "any":
         allp = "(preceding::node()|ancestor-or-self::node())[%s]" % P
         if not ins.frm:
